@@ -139,6 +139,19 @@ fn near_misses(n: &NameCfg, class: &str, t0: i64) -> Vec<String> {
                 }
             }
         }
+        // the fixed name part ends like the beginning of ".<suffix>": a foreign file can start
+        // with the fixed part, end with the suffix and still be shorter than both together
+        // (the old "server.log" next to a family "server.log_r00000.log")
+        "suffix-overlap" => {
+            if let Some(s) = &n.suffix {
+                let dotted = format!(".{s}");
+                for k in 1..=dotted.len() {
+                    if dotted.is_char_boundary(k) && fixed.ends_with(&dotted[..k]) {
+                        v.push(format!("{fixed}{}", &dotted[k..]));
+                    }
+                }
+            }
+        }
         "missing-infix" => {
             if n.naming != NamingK::NoRotation && !fixed.is_empty() {
                 v.push(format!("{fixed}{sfx}"));
@@ -192,6 +205,7 @@ const CLASSES: &[&str] = &[
     "too-few-digits",
     "missing-infix",
     "broken-timestamp",
+    "suffix-overlap",
 ];
 
 #[derive(Debug, Clone, PartialEq, Eq)]
@@ -307,6 +321,157 @@ fn run_history(cfg: &FlwCfg, ops: &[HOp], t0: i64) -> RunResult {
 }
 
 pub fn run_case(ctx: &mut CaseCtx) -> CaseResult {
+    // every 32nd case has an independent observer: the polluted run happens in a child under
+    // strace, and no successful mutating system call may name a foreign path
+    let mode = if ctx.case % 32 == 21 { Mode::StraceParent } else { Mode::InProcess };
+    run_case_mode(ctx, mode)
+}
+
+pub fn child_main(a: &crate::child::ChildArgs) -> i32 {
+    let mut ctx = crate::child::ctx_of(a);
+    let _ = run_case_mode(&mut ctx, Mode::StraceChild);
+    0
+}
+
+#[derive(Clone, Copy, PartialEq, Eq)]
+enum Mode {
+    InProcess,
+    StraceParent,
+    StraceChild,
+}
+
+/// strace prints bytes outside printable ASCII as octal escapes
+fn unescape(s: &str) -> String {
+    let b = s.as_bytes();
+    let mut out: Vec<u8> = Vec::new();
+    let mut i = 0;
+    while i < b.len() {
+        if b[i] == b'\\' && i + 1 < b.len() {
+            let c = b[i + 1];
+            if (b'0'..=b'7').contains(&c) {
+                let mut v = 0u32;
+                let mut j = i + 1;
+                while j < b.len() && j < i + 4 && (b'0'..=b'7').contains(&b[j]) {
+                    v = v * 8 + u32::from(b[j] - b'0');
+                    j += 1;
+                }
+                out.push(v as u8);
+                i = j;
+                continue;
+            }
+            out.push(match c {
+                b'n' => b'\n',
+                b't' => b'\t',
+                b'r' => b'\r',
+                other => other,
+            });
+            i += 2;
+            continue;
+        }
+        out.push(b[i]);
+        i += 1;
+    }
+    String::from_utf8_lossy(&out).to_string()
+}
+
+/// the path arguments ("...") and the paths behind file descriptors (3</...>) of one strace line
+fn paths_of(line: &str) -> Vec<String> {
+    let mut v = Vec::new();
+    let b = line.as_bytes();
+    let mut i = 0;
+    while i < b.len() {
+        if b[i] == b'"' {
+            let mut j = i + 1;
+            while j < b.len() && b[j] != b'"' {
+                if b[j] == b'\\' {
+                    j += 1;
+                }
+                j += 1;
+            }
+            if j <= b.len() {
+                v.push(unescape(&line[i + 1..j.min(b.len())]));
+            }
+            i = j + 1;
+        } else if b[i] == b'<' && i > 0 && b[i - 1].is_ascii_digit() {
+            let mut j = i + 1;
+            while j < b.len() && b[j] != b'>' {
+                if b[j] == b'\\' {
+                    j += 1;
+                }
+                j += 1;
+            }
+            v.push(unescape(&line[i + 1..j.min(b.len())]));
+            i = j + 1;
+        } else {
+            i += 1;
+        }
+    }
+    v
+}
+
+const MUTATING_BY_PATH: &[&str] = &[
+    "rename", "renameat", "renameat2", "unlink", "unlinkat", "rmdir", "mkdir", "mkdirat", "truncate",
+    "chmod", "fchmodat", "chown", "lchown", "fchownat", "link", "linkat", "symlink", "symlinkat",
+    "utimensat", "utime", "utimes", "futimesat", "mknod", "mknodat", "setxattr", "lsetxattr",
+    "removexattr", "lremovexattr", "creat", "ftruncate", "fchmod", "fchown", "fallocate",
+];
+
+struct SysObs {
+    lines: u64,
+    mutating_on_family: u64,
+    reads_of_foreign: u64,
+    hit: Option<(String, String)>,
+}
+
+/// offline check of the strace log: no successful mutating call names a foreign path
+fn check_trace(text: &str, poll_dir: &Path, foreign: &[String]) -> SysObs {
+    let mut o = SysObs { lines: 0, mutating_on_family: 0, reads_of_foreign: 0, hit: None };
+    let dir = format!("{}/", poll_dir.to_string_lossy());
+    for line in text.lines() {
+        let mut it = line.splitn(2, ' ');
+        let (Some(_pid), Some(rest)) = (it.next(), it.next()) else { continue };
+        let rest = rest.trim_start();
+        if rest.starts_with("---") || rest.starts_with("+++") {
+            continue;
+        }
+        let name = if let Some(r) = rest.strip_prefix("<... ") {
+            r.split(' ').next().unwrap_or("").to_string()
+        } else {
+            match rest.find('(') {
+                Some(p) => rest[..p].to_string(),
+                None => continue,
+            }
+        };
+        o.lines += 1;
+        // the result: failed calls changed nothing
+        let failed = rest.rsplit(" = ").next().is_some_and(|r| r.starts_with("-1"));
+        let is_open = matches!(name.as_str(), "open" | "openat" | "openat2");
+        let mutating = if is_open {
+            ["O_WRONLY", "O_RDWR", "O_CREAT", "O_TRUNC", "O_APPEND"].iter().any(|f| rest.contains(f))
+        } else {
+            MUTATING_BY_PATH.contains(&name.as_str())
+        };
+        for p in paths_of(rest) {
+            let Some(rel) = p.strip_prefix(&dir) else { continue };
+            let first = rel.split('/').next().unwrap_or("");
+            let is_foreign = foreign.iter().any(|f| f == first);
+            if is_foreign {
+                if mutating && !failed {
+                    if o.hit.is_none() {
+                        o.hit = Some((name.clone(), line.chars().take(300).collect()));
+                    }
+                } else {
+                    o.reads_of_foreign += 1;
+                }
+            } else if mutating && !failed {
+                o.mutating_on_family += 1;
+            }
+        }
+    }
+    o
+}
+
+fn run_case_mode(ctx: &mut CaseCtx, mode: Mode) -> CaseResult {
     let rng = &mut ctx.rng;
     let naming = flw::gen_naming(rng, true);
     let clean_dir = ctx.dir.join("clean");
@@ -329,6 +494,25 @@ pub fn run_case(ctx: &mut CaseCtx) -> CaseResult {
     };
     let class = *rng.pick(CLASSES);
     let t0 = flw::base_time_ns(rng);
+    if class == "suffix-overlap" {
+        // e.g. basename "server.log" / "srv.lo" / "srv." with suffix "log"
+        let s = names.suffix.clone().unwrap_or_else(|| "log".to_string());
+        names.suffix = Some(s.clone());
+        let dotted = format!(".{s}");
+        let mut k = 1 + rng.usize(dotted.len());
+        while !dotted.is_char_boundary(k) {
+            k += 1;
+        }
+        let tail = format!("{}{}", *rng.pick(&["server", "srv", "x"]), &dotted[..k]);
+        // the overlap must be at the end of the fixed part, whichever name part comes last
+        if names.start_ts.is_none() {
+            if names.discr.is_some() {
+                names.discr = Some(tail);
+            } else {
+                names.basename = tail;
+            }
+        }
+    }
     let mk_cfg = |dir: &Path| {
         let mut n = names.clone();
         n.dir = dir.to_path_buf();
@@ -368,6 +552,9 @@ pub fn run_case(ctx: &mut CaseCtx) -> CaseResult {
     }
     // create the foreign entries
     for (i, f) in foreign.iter().enumerate() {
+        if mode == Mode::StraceChild {
+            break; // the parent has created them
+        }
         let p = poll_dir.join(f);
         if class == "subdirectory" || class == "family-named-directory" {
             let _ = std::fs::create_dir_all(&p);
@@ -396,10 +583,71 @@ pub fn run_case(ctx: &mut CaseCtx) -> CaseResult {
             _ => HOp::Flush,
         });
     }
-    let a = run_history(&cfg_c, &ops, t0);
-    let _ = crate::util::take_panics(); // the clean run is the reference; its panics are C10's
-    let b = run_history(&cfg_p, &ops, t0);
+    if mode == Mode::StraceChild {
+        let _ = run_history(&cfg_p, &ops, t0);
+        return res;
+    }
+    let empty = || RunResult { family: Vec::new(), listings: Vec::new(), error: None };
+    let mut sys: Option<SysObs> = None;
+    let (a, b) = if mode == Mode::StraceParent {
+        let trace_file = ctx.dir.join("strace_c14.txt");
+        let tf = trace_file.to_string_lossy().to_string();
+        let wrapper: Vec<String> = [
+            "strace", "-f", "-y", "-qq", "-e", "signal=none", "-o", &tf, "-e",
+            "trace=%file,ftruncate,fchmod,fchown,fallocate",
+        ]
+        .iter()
+        .map(|s| (*s).to_string())
+        .collect();
+        let ctx_ro: &CaseCtx = ctx;
+        let out = crate::child::spawn_wrapped(
+            &crate::child::Spawn {
+                ctx: ctx_ro,
+                role: "strace",
+                extra: vec![],
+                env: vec![],
+                timeout: std::time::Duration::from_secs(60),
+                tag: "strace",
+                cwd: None,
+                kill_after: None,
+            },
+            &wrapper,
+        );
+        match out {
+            Ok(o) if o.clean_exit() && trace_file.exists() => {
+                let text = String::from_utf8_lossy(&std::fs::read(&trace_file).unwrap_or_default()).to_string();
+                sys = Some(check_trace(&text, &poll_dir, &existing));
+                res.count("strace_runs", 1);
+            }
+            Ok(o) if !o.timed_out && o.code == Some(101) => {
+                res.violate(
+                    "panic",
+                    format!("C14/panic-in-child/{class}"),
+                    format!("with foreign files {:?}: {}", existing, String::from_utf8_lossy(&o.stderr[..o.stderr.len().min(400)])),
+                );
+            }
+            _ => res.count("strace_unavailable", 1),
+        }
+        (empty(), empty())
+    } else {
+        let a = run_history(&cfg_c, &ops, t0);
+        let _ = crate::util::take_panics(); // the clean run is the reference; its panics are C10's
+        let b = run_history(&cfg_p, &ops, t0);
+        (a, b)
+    };
     let after = snap_foreign(&poll_dir, &existing);
+    if let Some(o) = &sys {
+        res.count("strace_lines_checked", o.lines);
+        res.count("strace_mutating_calls_on_family_files", o.mutating_on_family);
+        res.count("strace_non_mutating_calls_on_foreign_files", o.reads_of_foreign);
+        if let Some((call, line)) = &o.hit {
+            res.violate(
+                "syscall-on-foreign-file",
+                format!("C14/syscall-on-foreign-file/{call}/{class}/naming={}", cfg_c.names.naming.label()),
+                format!("a successful mutating system call names a foreign path (foreign: {existing:?}): {line}"),
+            );
+        }
+    }
 
     let facts = format!("{class}/naming={}", cfg_c.names.naming.label());
     res.count("foreign_files", existing.len() as u64);
@@ -482,7 +730,11 @@ pub fn run_case(ctx: &mut CaseCtx) -> CaseResult {
         );
     }
     res.count("listing_queries_compared", a.listings.len() as u64);
-    res.nontrivial = !existing.is_empty() && a.family.len() >= 2;
+    res.nontrivial = !existing.is_empty()
+        && (a.family.len() >= 2 || sys.as_ref().is_some_and(|o| o.mutating_on_family >= 3));
+    if mode == Mode::StraceParent {
+        res.shape = format!("{}|strace", res.shape);
+    }
     if ctx.case < 3 || res.verdict != Verdict::Held {
         res.sample = Some(json!({
             "config": cfg_p.to_json(),
